@@ -64,6 +64,19 @@ class Ctx:
         self._leaf_orig[name] = (t, t.detach().clone())
         return t
 
+    def same(self, a, b):
+        """elementwise equality for use inside boolean oracles: exact in the symbolic run (reals), tolerance-based in the
+        float64 replay (an exact float == would make such oracles vacuous there)"""
+        if self.symbolic:
+            return a == b
+        b_t = b if isinstance(b, torch.Tensor) else torch.tensor(b, dtype=a.dtype)
+        return (a - b_t).abs() <= 1e-9 * (1.0 + b_t.abs())
+
+    def shadow(self, t):
+        """concrete value of a tensor at the current witness / replay point, without going through the symbolic mode"""
+        with _disable_current_modes():
+            return t.detach().clone()
+
     def assert_no_mutation(self, label):
         """no library operation so far may have changed a caller-owned leaf tensor (storage-level, any view)"""
         if self.symbolic:
